@@ -13,6 +13,39 @@ def load(ctx):
     return doc['replay'], doc.get('signature', {})
 
 
+def c02(ctx, T, judge_session):
+    rp, sig = load(ctx)
+    if rp['kind'] == 'nonce-unit':
+        from harness.drivers import nonce as N
+        bad = N.unit_case(rp['alg'].encode(), rp['fixed'], rp['ctr'],
+                          rp['steps'], salt=ctx.seed % 200)
+        print('clauses:', bad)
+        ctx.count(('replay', 'nonce-unit'))
+        if bad:
+            ctx.violation(sig, '; '.join(bad), replay=rp)
+    elif rp['kind'] == 'session' and rp.get('module') == 'Nonce':
+        from harness.drivers import nonce as N
+        iv = N.concrete(rp['fixed'], rp['ctr'])
+        kw = dict(encryption_algs=[rp['alg']])
+        pl = [b'n' * 9, b'o' * 33, b'p' * 5, b'q' * 70]
+        r = T.run_session(pl, client_kw=kw, server_kw=kw,
+                          after_connect=T.iv_jump({'cs': iv, 'sc': iv}))
+        ctx.count(('replay', 'nonce-live'))
+        judge_session(ctx, r, pl, rp.get('what', 'replay'), sig)
+    elif rp['kind'] == 'session' and 'rekey' in rp and 'cmp' in rp:
+        import random
+        prng = random.Random(4253)
+        pl = [prng.randbytes(400) for i in range(10)]
+        kw = dict(encryption_algs=[rp['enc']], compression_algs=[rp['cmp']])
+        r = T.run_session(pl, client_kw=kw, server_kw=kw,
+                          rekey_bytes=rp['rekey'])
+        ctx.count(('replay', 'rekey-cmp'))
+        judge_session(ctx, r, pl, rp.get('what', 'replay'), sig)
+    else:
+        raise SystemExit(f'replay of this {rp["kind"]} case needs the '
+                         'generated inputs; run the check itself')
+
+
 def c01(ctx, judge, macsize_of):
     from harness.drivers import transport as T
     rp, sig = load(ctx)
